@@ -1,3 +1,7 @@
+"""MANIFEST content: one JSON per property under notes/manifest/Cxx.json with keys text / note / technique."""
+import glob, json, os
 HOOK_COMMITS = []
-STD = "Trusted: Lean 4.33 kernel, axioms ⊆ {propext, Classical.choice, Quot.sound} (audited each run, no native_decide/bv_decide/sorry); the hand-written model and its correspondence harness; "
-CHECKS = {
+CHECKS = {}
+for _f in sorted(glob.glob(os.path.join(os.path.dirname(os.path.dirname(os.path.abspath(__file__))), "notes", "manifest", "C*.json"))):
+    CHECKS[os.path.basename(_f)[:-5]] = json.load(open(_f))
+NOT_APPLICABLE = {}
